@@ -206,8 +206,8 @@ From Verif Require Import Dist.
 Fixpoint strip (e : expr) : expr :=
   match e with
   | EStepInv x => strip x
-  | EVec v => EVec (mkVS (vms v) (vorig v) 0 (vat v) (vflt v))
-  | EMat v r => EMat (mkVS (vms v) (vorig v) 0 (vat v) (vflt v)) r
+  | EVec v => EVec (mkVS (vms v) (vorig v) 0 (vat v) (vflt v) (vsyn v))
+  | EMat v r => EMat (mkVS (vms v) (vorig v) 0 (vat v) (vflt v) (vsyn v)) r
   | ESubq x => ESubq (strip x)
   | ECall f xs => ECall f (map strip xs)
   | EAgg op w g p x => EAgg op w g (match p with Some q => Some (strip q) | None => None end) (strip x)
